@@ -81,4 +81,14 @@ mutual
     | .keyed k v :: rest => h8 E k && h8 E v && h8Entries E rest
 end
 
+/-- the run-time value a definite abstract value stands for (`nil`, booleans, numbers, strings);
+`none` for `Table`, `Function`, `Unknown` -/
+def toVal? : LuaValue N → Option (Sem.Val N)
+  | .nil => some .nil
+  | .true_ => some (.bool true)
+  | .false_ => some (.bool false)
+  | .number x => some (.num x)
+  | .string s => some (.str s)
+  | _ => none
+
 end DarkluaModel.C08
